@@ -64,7 +64,7 @@ func (w *world) trace() []map[string]interface{} {
 		case "recv", "apply":
 			out = append(out, map[string]interface{}{"ev": e.Name, "f": e.F, "t": tix[e.Table], "l": e.L, "off": r(e.Off), "flag": e.Flag})
 		case "persist":
-			out = append(out, map[string]interface{}{"ev": "persist", "f": e.F, "t": tix[e.Table]})
+			out = append(out, map[string]interface{}{"ev": "persist", "f": e.F, "t": tix[e.Table], "flag": e.Flag})
 		case "snapshot", "stopFollower", "restoreSnapshot", "startFollower":
 			out = append(out, map[string]interface{}{"ev": e.Name, "f": e.F})
 		case "cutLink":
